@@ -500,7 +500,7 @@ class Workers(object):
 class C08(Prop):
     id = "C08"
     lean_module = "ProductMD.Properties.C08"
-    quick_budget = 540
+    quick_budget = 470
     thorough_budget = 2400
     rule = ("per case one content x k construction orders (seeded shuffles of every unordered container) x S hash seeds in separate "
             "interpreter processes x 1-3 dumps: all byte strings equal, equal to the Lean model's rendering of every order; JSON text = "
@@ -777,7 +777,7 @@ class C08(Prop):
                 return []
             return [{"op": "ti_dumps", "args": {"spec": FTI.model_tree_spec(sp), "main_variant": mv}} for _, mv, sp in self._seq_keys(a)]
         reqs = []
-        for s in a["orders"][:3]:
+        for s in a["orders"][:(3 if self.tier == "thorough" else 2)]:      # the model renders the base order and 1 (thorough: 2) rearranged orders
             spec = permute(fmt, a["spec"], s)
             if fmt == "composeinfo":
                 reqs.append({"op": "composeinfo_dumps", "args": {"spec": FCI.strip_parent(spec)}})
